@@ -521,9 +521,12 @@ def run_jobs(jobs, max_par):
       jj["scratch"] = SCRATCH
       with open(path, "w") as f:
         json.dump(jj, f)
+      # stdout/stderr go to files: a batch prints more than a pipe buffer holds
+      fo, fe = open(path + ".out", "w"), open(path + ".err", "w")
       running[j["name"]] = subprocess.Popen([common.PY, os.path.join(HERE, "c04_runner.py"), path],
-                                            env=common.impl_env(hashseed=j["hashseed"]), stdout=subprocess.PIPE,
-                                            stderr=subprocess.PIPE, text=True)
+                                            env=common.impl_env(hashseed=j["hashseed"]), stdout=fo, stderr=fe, text=True)
+      fo.close()
+      fe.close()
       started[j["name"]] = time.time()
     for n, p in running.items():
       if p.poll() is None and time.time() - started[n] > JOB_TIMEOUT_S:
@@ -534,7 +537,12 @@ def run_jobs(jobs, max_par):
       continue
     for n in done:
       p = running.pop(n)
-      so, se = p.communicate()
+      p.wait()
+      base = os.path.join(SCRATCH, "job_%d_%s.json" % (os.getpid(), n))
+      with open(base + ".out") as f:
+        so = f.read()
+      with open(base + ".err") as f:
+        se = f.read()
       rs = {}
       for line in so.split("\n"):
         if line.startswith("RESULT "):
@@ -542,10 +550,11 @@ def run_jobs(jobs, max_par):
           rs[d["id"]] = d
       out[n] = rs
       errs[n] = (p.returncode, se[-1500:])
-      try:
-        os.unlink(os.path.join(SCRATCH, "job_%d_%s.json" % (os.getpid(), n)))
-      except OSError:
-        pass
+      for ext in ("", ".out", ".err", ".pickled"):
+        try:
+          os.unlink(base + ext)
+        except OSError:
+          pass
   return out, errs
 
 
